@@ -3,7 +3,7 @@
 ID=$1; PATCH=$2; shift 2
 WT=/tmp/m-$ID-$$
 git -C /repo worktree add --detach $WT HEAD >/dev/null 2>&1
-git -C $WT apply $PATCH || { echo "patch failed"; git -C /repo worktree remove --force $WT; exit 2; }
+git -C $WT apply $PATCH 2>/dev/null || git -C $WT apply -3 $PATCH || { echo "patch failed"; git -C /repo worktree remove --force $WT; exit 2; }
 for c in "$@"; do
   echo "== $c against $ID"
   (cd /verif && VERIF_REPO=$WT timeout 3000 ./check $c 2>&1 | grep -E "VIOLATION|KNOWN-FINDING|done:|infrastructure" )
